@@ -2,6 +2,7 @@ package util
 
 import (
 	"context"
+	"errors"
 	"fmt"
 	"github.com/markusressel/fan2go/internal/simhook"
 	"github.com/markusressel/fan2go/internal/ui"
@@ -34,8 +35,13 @@ func SafeCmdExecution(executable string, args []string, timeout time.Duration) (
 
 	if err != nil {
 		simhook.AfterExec(executable, args, "", err)
-		exitError := err.(*exec.ExitError)
-		ui.Warning("Command failed to execute: %s: %s", executable, string(exitError.Stderr))
+		var exitError *exec.ExitError
+		if errors.As(err, &exitError) {
+			ui.Warning("Command failed to execute: %s: %s", executable, string(exitError.Stderr))
+		} else {
+			// the command could not be started at all
+			ui.Warning("Command failed to execute: %s: %v", executable, err)
+		}
 		return "", err
 	}
 
